@@ -1,4 +1,4 @@
-\* C01 (ii-c): sequences of two short messages (0..3 bytes, zero-length writes and frames included)
+\* C01 (ii-c): sequences of two short messages (0..2 bytes, zero-length writes and frames included)
 SPECIFICATION GenSpec
 CONSTANTS
   Max = 1048576
@@ -10,15 +10,15 @@ CONSTANTS
   Encs = {TRUE, FALSE}
   SendApis = {"frames", "buffered", "typed"}
   RecvApis = {"complete", "startread", "typed"}
-  WriteSizes = {0, 1, 2, 3}
+  WriteSizes = {0, 1, 2}
   StrSizes = {}
-  ReadSizes = {0, 1, 2}
+  ReadSizes = {0, 1}
   MaxMsgs = 2
-  MaxWrites = 3
+  MaxWrites = 2
   MaxReads = 2
-  MaxLen = 3
-  PairFirst = {0, 1, 2, 3}
-  TypedFlush = {TRUE}
+  MaxLen = 2
+  PairFirst = {0, 1, 2}
+  TypedFlush = {FALSE}
   Interleave = FALSE
   Bug = {}
 INVARIANT EmitTrace
